@@ -73,7 +73,7 @@ fn main() {
         }
         "build" => {
             // warm the caches: fixed universe + seeded universe for the current seed
-            match build::prepare(&opts, &["fixed".to_string(), "extra".to_string(), format!("s{}", opts.seed)]) {
+            match build::prepare(&opts, &["fixed".to_string(), "extra".to_string(), "zst".to_string(), format!("s{}", opts.seed)]) {
                 Ok(_) => 0,
                 Err(e) => {
                     eprintln!("{}", e);
